@@ -56,10 +56,38 @@ where
     | [] => false
     | t :: ts => Ty.memBy t ts || dupIn ts
 
-/-- classes for the eq ⇒ hash law on a pair -/
+/-! ### `seqArgs`: boundary of the modelled fragment (not a finding class)
+
+`SequenceValue`'s dataclass hash and `==` also cover the derived field `args = unite_values(members)`;
+the model compares the members only. The two agree unless the merge pattern of `unite_values` on
+the members can differ between two member-wise hash-equal (resp. `==`) sequence forms, which needs
+two flattened members of one sequence form that are hash-equal but not `==` (`tuple[int, Literal[0]]`)
+or `==` but not hash-equal (`tuple[[1], [1]]`, `tuple[list[int | str], list[str | int]]`). Terms
+containing such a sequence form are outside the fragment on which `hash`/`==` are compared. -/
+def seqFlat (ms : List Ty) : List Ty := (ms.map stripMany).flatMap flatten1
+
+def halfRelated : List Ty → Bool
+  | [] => false
+  | x :: xs => xs.any (fun y => Ty.hashEq x y != Ty.beq x y) || halfRelated xs
+
+mutual
+def Ty.seqArgsIrregular : Ty → Bool
+  | .seq _ ms => halfRelated (seqFlat ms) || Ty.seqArgsIrregularL ms
+  | .generic _ as => Ty.seqArgsIrregularL as
+  | .many t => Ty.seqArgsIrregular t
+  | .union ts => Ty.seqArgsIrregularL ts
+  | .annotated t => Ty.seqArgsIrregular t
+  | _ => false
+def Ty.seqArgsIrregularL : List Ty → Bool
+  | [] => false
+  | t :: ts => Ty.seqArgsIrregular t || Ty.seqArgsIrregularL ts
+end
+
+/-- classes for the eq ⇒ hash law on a pair (`seqArgs`, last, marks the fragment boundary) -/
 def d14Pair (a b : Ty) : List String :=
   (if a.hasUnhashable || b.hasUnhashable then ["unhashable"] else []) ++
-  (if a.hasUnion || b.hasUnion then ["unionOrder"] else [])
+  (if a.hasUnion || b.hasUnion then ["unionOrder"] else []) ++
+  (if a.seqArgsIrregular || b.seqArgsIrregular then ["seqArgs"] else [])
 
 /-- classes for the semilattice laws on operands `ts`: judged on the flattened members -/
 def d14Ops (ts : List Ty) : List String :=
@@ -67,7 +95,8 @@ def d14Ops (ts : List Ty) : List String :=
   (if ts.any isAnnUnion then ["annotatedUnion"] else []) ++
   (if ts.any hasDupMembers then ["dupUnion"] else []) ++
   (if ms.any Ty.hasUnhashable then ["unhashable"] else []) ++
-  (if ms.any Ty.hasUnion then ["unionOrder"] else [])
+  (if ms.any Ty.hasUnion then ["unionOrder"] else []) ++
+  (if ts.any Ty.seqArgsIrregular then ["seqArgs"] else [])
 
 /-- `substCollapse`: substituting into the union of the operands makes two of its members `==`
 (`T | int` with `T := int`) or removes one (`T := Never`, leaving a one-member union):
